@@ -131,6 +131,9 @@ def build(S, spec):
             if adj == 'sym':
                 adj = S.int('rankadj_' + tagp, 0, 50)
             alloc.update(res, rank, adj, a.get('max_utilization'))
+            W.alloc_terms = getattr(W, 'alloc_terms', {})
+            W.alloc_terms[(a.get('label', '_default'),) +
+                          tuple(a['path'])] = (rank, adj)
             alloc.set_traits(a.get('traits', 0))
         W.allocs[(a.get('label', '_default'),) + tuple(a['path'])] = alloc
     # instances
@@ -538,10 +541,18 @@ def c03_oracle(W, placement, pre_state, tag=''):
         S.check('C03:assigned_without_required_traits' + tag,
                 (srv.traits.self_traits & app.traits) == app.traits,
                 {'app': name, 'server': sa, 'traits': app.traits})
-        if app.lease:
+        # the lease the instance asked for (from the spec: the code under
+        # test must not be trusted to have left app.lease alone)
+        idx = int(name[-10:])
+        lease = W.spec['apps'][idx].get('lease', 0) \
+            if idx < len(W.spec['apps']) else app.lease
+        S.check('C03:requested_lease_changed_by_scheduler' + tag,
+                app.lease == lease, {'app': name, 'lease_now': app.lease,
+                                     'requested': lease})
+        if lease:
             S.reach('new_assignment_with_lease')
             S.check('C03:lease_outlives_server' + tag,
-                    S.z(VT.now + app.lease) < S.z(srv.valid_until),
+                    S.z(VT.now + lease) < S.z(srv.valid_until),
                     {'app': name, 'server': sa})
     for name, app in W.cell.apps.items():
         if app.server is None:
